@@ -37,7 +37,14 @@ fn blob(rng: &mut Rng, max: usize) -> Vec<u8> {
                 let mut b = [0u8; 4];
                 v.extend_from_slice(c.encode_utf8(&mut b).as_bytes());
             }
-            v.truncate(n);
+            // keep it valid UTF-8: cut at a character boundary
+            while v.len() > n {
+                let mut k = v.len() - 1;
+                while k > 0 && (v[k] & 0xc0) == 0x80 {
+                    k -= 1;
+                }
+                v.truncate(k);
+            }
             v
         }
         _ => rng.bytes(n),
@@ -56,7 +63,16 @@ pub fn extension_content(rng: &mut Rng, t: u16) -> Vec<u8> {
             let mut l = Vec::new();
             for _ in 0..rng.small_len(4) {
                 l.push(if rng.chance(3, 4) { 0 } else { rng.u8() });
-                vec16(&mut l, &blob(rng, 40));
+                let max = if rng.chance(1, 6) { 900 } else { 40 };
+                let mut name = blob(rng, max);
+                if max == 900 && name.len() < 200 && rng.chance(1, 2) {
+                    // long host names: beyond the 255-byte DNS limit
+                    let unit = name.clone();
+                    while name.len() < 300 && !unit.is_empty() {
+                        name.extend_from_slice(&unit);
+                    }
+                }
+                vec16(&mut l, &name);
             }
             vec16(&mut v, &l);
         }
@@ -75,7 +91,8 @@ pub fn extension_content(rng: &mut Rng, t: u16) -> Vec<u8> {
         16 => {
             let mut l = Vec::new();
             for _ in 0..rng.small_len(4) {
-                vec8(&mut l, &blob(rng, 20));
+                let max = if rng.chance(1, 6) { 255 } else { 20 };
+                vec8(&mut l, &blob(rng, max));
             }
             vec16(&mut v, &l);
         }
